@@ -666,11 +666,11 @@ def _is_fresh(d):
 
 def run(ctx):
     ctx.assume("numpy Generator.random is uniform on [0,1); integers(lo, hi) uniform on lo..hi-1; choice uniform (as a set, without replacement: uniform over subsets); multinomial(1, p).argmax() draws an index with probabilities p")
-    rule_B(ctx)
-    rule_S(ctx)
-    rule_F(ctx)
-    rule_A(ctx)
-    rule_X(ctx)
+    ctx.soft(rule_B)
+    ctx.soft(rule_S)
+    ctx.soft(rule_F)
+    ctx.soft(rule_A)
+    ctx.soft(rule_X)
     # W1: the weights (same rule objects as C01.K1 / K2)
     from . import C01
 
